@@ -32,7 +32,7 @@ SRC = {"c": "mfront/src/CMaterialPropertyInterfaceBase.cxx", "cxx": "mfront/src/
 AOPS = {"=": "set", "+=": "add", "-=": "sub", "*=": "mul", "/=": "div"}
 TYPES = ["real", "temperature", "stress", "strain", "massdensity", "thermalconductivity", "length", "time"]
 GLOSSARY_IN = ["Temperature", "Porosity", "BurnUp_AtPercent", "Pressure", "GrainSize", "NeutronFluence", "HydrostaticPressure"]
-GLOSSARY_PAR = ["YoungModulus", "PoissonRatio", "ShearModulus", "YieldStress", "BulkModulus", "FirstLameCoefficient"]
+GLOSSARY_PAR = ["YoungModulus", "PoissonRatio", "ShearModulus", "YieldStrength", "BulkModulus", "FirstLameCoefficient"]
 GLOSSARY_OUT = ["ThermalConductivity", "SpecificHeat", "ThermalExpansion", "MassDensity", "Emissivity"]
 
 
@@ -1308,6 +1308,8 @@ def run(ck):
             if not nonfinite and not eflag:
                 counters["finite"] += 1
                 exp_v, exp_s = bits(val), "0"
+            elif itf in ("c", "cxx") and not d.inputs:
+                exp_v, exp_s = bits(val), "0"      # without inputs these two interfaces emit no errno / finiteness test
             elif itf == "c":
                 exp_v, exp_s = "nan", "0"
             elif itf == "cxx":
